@@ -216,6 +216,14 @@ func readMapStringInt32(r *bufio.Reader, sz int, v *map[string][]int32) (remain 
 		return
 	}
 
+	if int(len) > remain {
+		// Every entry takes at least six bytes of the input.
+		return remain, errShortRead
+	}
+	if len < 0 {
+		len = 0
+	}
+
 	content := make(map[string][]int32, len)
 	for i := 0; i < int(len); i++ {
 		var key string
@@ -292,6 +300,13 @@ func readSlice(r *bufio.Reader, sz int, v reflect.Value) (int, error) {
 	if n := int(len); n < 0 {
 		v.Set(reflect.Zero(v.Type()))
 	} else {
+		if n > sz {
+			// Every element takes at least one byte of the response: a count
+			// larger than the bytes left cannot be honored. Checking it here
+			// keeps a corrupted count from allocating gigabytes (or crashing
+			// the program) before the read fails anyway.
+			return sz, errShortRead
+		}
 		v.Set(reflect.MakeSlice(v.Type(), n, n))
 
 		for i := 0; i != n; i++ {
@@ -424,6 +439,12 @@ func readFetchResponseHeaderV5(r *bufio.Reader, size int) (throttle int32, water
 		return
 	}
 
+	if abortedTransactionLen < -1 || abortedTransactionLen > remain/16 {
+		// Every aborted transaction takes 16 bytes of the response.
+		err = fmt.Errorf("invalid number of aborted transactions (%d) with %d bytes remaining in the fetch response: %w", abortedTransactionLen, remain, errShortRead)
+		return
+	}
+
 	if abortedTransactionLen == -1 {
 		abortedTransactions = nil
 	} else {
@@ -525,6 +546,12 @@ func readFetchResponseHeaderV10(r *bufio.Reader, size int) (throttle int32, wate
 
 	var abortedTransactionLen int
 	if remain, err = readArrayLen(r, remain, &abortedTransactionLen); err != nil {
+		return
+	}
+
+	if abortedTransactionLen < -1 || abortedTransactionLen > remain/16 {
+		// Every aborted transaction takes 16 bytes of the response.
+		err = fmt.Errorf("invalid number of aborted transactions (%d) with %d bytes remaining in the fetch response: %w", abortedTransactionLen, remain, errShortRead)
 		return
 	}
 
